@@ -104,6 +104,44 @@ theorem hashLen_standard :
     HashType.md5.hashLen = 16 ∧ HashType.sha1.hashLen = 20 ∧ HashType.sha224.hashLen = 28 ∧
     HashType.sha256.hashLen = 32 ∧ HashType.sha384.hashLen = 48 ∧ HashType.sha512.hashLen = 64 := by decide
 
+/-! ## (d) the rest of the entry points: which integers `p_crypto_hash_new` accepts, `get_type`, NULL arguments
+
+The enumerator values, the range test `MD5 ≤ type ≤ GOST`, one `switch` case per enumerator, `get_type`, `free`,
+the constructors and the absence of mutable `static` objects in the seven files are translator facts
+(`hash_api_facts`): several live objects cannot influence each other because the code has no state outside them —
+in the model an object *is* its `PHash` value. -/
+
+/-- every type of this family is accepted by the range test and selected by its own enumerator value -/
+theorem new_by_code (t : HashType) : typeAccepted t.code = true ∧ HashType.ofCode t.code = some t := by
+  cases t <;> decide
+
+/-- any integer outside the enumeration is refused (`p_crypto_hash_new` returns NULL before the switch) -/
+theorem new_refuses_outside (c : Int) (h : c < 0 ∨ 10 < c) : typeAccepted c = false := by
+  have h1 : PV.Generated.HashMD.typeCodeMin = 0 := rfl
+  have h2 : PV.Generated.HashMD.typeCodeMax = 10 := rfl
+  unfold typeAccepted
+  rw [h1, h2]
+  rcases h with h | h
+  · have : ¬ (0 ≤ c) := by omega
+    simp [this]
+  · have : ¬ (c ≤ 10) := by omega
+    simp [this]
+
+/-- an accepted integer that selects a type of this family selects exactly one -/
+theorem ofCode_code (c : Int) (t : HashType) (h : HashType.ofCode c = some t) : t.code = c := by
+  unfold HashType.ofCode at h
+  have := List.find?_some h
+  simpa using this
+
+/-- `get_type` answers the type given to `new`, whatever happened to the object since -/
+theorem get_type_constant {t : HashType} (h : PHash t) (ops : List Op) :
+    (ops.foldl (fun h op => (step h op).1) h).getType = t.code ∧ h.getType = t.code := ⟨rfl, rfl⟩
+
+/-- NULL data, a NULL output buffer and a NULL length pointer leave the object as it was: none of them is a
+    read, even when the capacity would have sufficed -/
+theorem null_arguments_ignored {t : HashType} (h : PHash t) (n cap : Nat) :
+    h.updateNull n = h ∧ (h.getDigestNullBuf cap) = (h, 0) ∧ h.getDigestNullLen = h := ⟨rfl, rfl, rfl⟩
+
 /-! ## (c) finding F9: what the unrepaired counter did
 
 Before the repair the three files with 32-bit counters computed
@@ -144,6 +182,8 @@ example : Admissible .sha256 { msg := ByteArray.empty, read := false }
   simp [Admissible, View.step, HashType.maxBytes, HashType.hashLen, Src.size, Src.toBytes, zeroBytes,
     PV.Generated.HashMD.hashLen_sha2_256, ByteArray.size_append]
   decide
+
+example : typeAccepted 5 = true ∧ typeAccepted 11 = false ∧ typeAccepted (-1) = false ∧ HashType.ofCode 3 = some .sha256 := by decide
 
 example : (Src.concat [([1, 2, 3].toByteArray : Src), { bytes := ByteArray.empty, zeros := 2 }]).size = 5 := by
   simp [Src.concat, Src.toBytes, zeroBytes, ByteArray.size]
